@@ -89,6 +89,9 @@ type Scenario struct {
 	// CLIPick selects the leaf and the depth of the partial subscription the
 	// CLI forms are compared on.
 	CLIPick int `json:"cli_pick,omitempty"`
+	// TargetClockAhead: the targets' clocks run two hours ahead of the collector's
+	// (their timestamps lie in the collector's future; legal, accepted by default).
+	TargetClockAhead bool `json:"target_clock_ahead,omitempty"`
 	// Bulk: every session ends with a long run of new leaves below one container.
 	Bulk bool `json:"bulk,omitempty"`
 	// ClientDelayNs: the clients subscribe this long after the collector started
@@ -206,9 +209,15 @@ func (H) Generate(rng *simrt.Rand, prop, tier string) (any, simrt.Config) {
 		sc.MetaPeriodNs = int64(time.Duration(1+rng.Intn(20)) * time.Second)
 	}
 	faults := rng.Chance(0.4)
+	sc.TargetClockAhead = rng.Chance(0.3)
 	for i := 0; i < nt; i++ {
 		t := TargetSpec{Name: fmt.Sprintf("dev%d", i), Request: sc.Requests[rng.Intn(len(sc.Requests))], Raw: rng.Chance(0.5)}
 		ts := int64(1000)
+		if sc.TargetClockAhead {
+			// the simulated clock starts at 2000-01-01 00:00:00 UTC: these targets
+			// stamp their updates two hours ahead of the collector's clock
+			ts = 946684800_000_000_000 + int64(2*time.Hour)
+		}
 		ns := 1
 		if faults {
 			ns = 1 + rng.Intn(3)
@@ -745,6 +754,9 @@ func (H) Execute(x *common.Exec, s any) {
 	}
 	if sc.Bulk {
 		x.Fault("client-subscribes-while-the-target-announces-a-long-list")
+	}
+	if sc.TargetClockAhead {
+		x.Fault("target-clock-ahead-of-the-collector")
 	}
 	if collectorDone || collectorErr != nil {
 		x.Violate("C01/collector-exited", "the collector stopped: %v", collectorErr)
